@@ -23,21 +23,59 @@ Fixpoint up_of (t : list (string * option purl)) (u : string) : option purl :=
 Record ereq := { r_router : router; r_issuer : string; r_keys : list string; r_tok : tok;
                  r_client : string; r_uri : string; r_state : string; r_fault : efault }.
 
-Definition to_esreq (x : ereq) : esreq :=
-  {| e_hint := classify (r_issuer x) (r_keys x) (r_tok x); e_client := r_client x; e_uri := r_uri x;
+(* the request as the validator sees it, when hints are verified with key set [keys] and
+   supported algorithms [algs] *)
+Definition to_esreq (keys : keyset) (algs : list string) (x : ereq) : esreq :=
+  {| e_hint := classify keys algs (r_issuer x) (r_keys x) (r_tok x); e_client := r_client x; e_uri := r_uri x;
      e_state := r_state x; e_fault := r_fault x |}.
 
-(* a sequence of requests to ONE provider instance *)
+(* MODEL side: the hint verifier uses what the Provider fields hold after all options ran *)
+Definition model_esreq (opts : list popt) (x : ereq) : esreq :=
+  to_esreq (v_hint_keys (configure opts)) (v_hint_algs (configure opts)) x.
+
+(* PROPERTY side: "validly signed" is judged against the key set the configuration designates
+   for id_token_hints - the provider's own published keys unless a WithIDTokenHintKeySet says
+   otherwise (the last one counts); options about ACCESS TOKENS designate nothing for hints. *)
+Fixpoint last_hint_keys (opts : list popt) : option keyset :=
+  match opts with
+  | [] => None
+  | o :: rest =>
+      match last_hint_keys rest with
+      | Some k => Some k
+      | None => match o with OptHintKeys k => Some k | _ => None end
+      end
+  end.
+
+Fixpoint last_hint_algs (opts : list popt) : option (list string) :=
+  match opts with
+  | [] => None
+  | o :: rest =>
+      match last_hint_algs rest with
+      | Some a => Some a
+      | None => match o with OptHintAlgs a => Some a | _ => None end
+      end
+  end.
+
+Definition designated_keys (opts : list popt) : keyset :=
+  match last_hint_keys opts with Some k => k | None => ks_storage end.
+
+Definition designated_algs (opts : list popt) : list string :=
+  match last_hint_algs opts with Some a => a | None => [] end.
+
+Definition spec_esreq (opts : list popt) (x : ereq) : esreq :=
+  to_esreq (designated_keys opts) (designated_algs opts) x.
+
+(* a sequence of requests to ONE provider instance built with the options [opts] *)
 Inductive input :=
-| IEnd (default_uri : string) (ts : tsfr) (cs : list lclient) (t : tables) (reqs : list ereq).
+| IEnd (default_uri : string) (ts : tsfr) (opts : list popt) (cs : list lclient) (t : tables) (reqs : list ereq).
 
 Inductive observed := OEnd (xs : list eout).
 
 (* each answer depends on its own request only *)
 Definition model (i : input) : observed :=
   match i with
-  | IEnd d ts cs t reqs =>
-      OEnd (map (fun x => end_session (pm_of (t_pm t)) (up_of (t_up t)) d ts cs (r_router x) (to_esreq x)) reqs)
+  | IEnd d ts opts cs t reqs =>
+      OEnd (map (fun x => end_session (pm_of (t_pm t)) (up_of (t_up t)) d ts cs (r_router x) (model_esreq opts x)) reqs)
   end.
 
 (* ------------------------------------------------------------------ property *)
@@ -136,16 +174,17 @@ Section Spec.
     end.
 End Spec.
 
-Fixpoint spec_list (f : esreq -> eout -> bool) (reqs : list ereq) (outs : list eout) : bool :=
+Fixpoint spec_list (f : ereq -> eout -> bool) (reqs : list ereq) (outs : list eout) : bool :=
   match reqs, outs with
   | [], [] => true
-  | x :: reqs', o :: outs' => f (to_esreq x) o && spec_list f reqs' outs'
+  | x :: reqs', o :: outs' => f x o && spec_list f reqs' outs'
   | _, _ => false
   end.
 
 Definition spec (i : input) (o : observed) : bool :=
   match i, o with
-  | IEnd d ts cs t reqs, OEnd outs => spec_list (spec_out (pm_of (t_pm t)) (up_of (t_up t)) d ts cs) reqs outs
+  | IEnd d ts opts cs t reqs, OEnd outs =>
+      spec_list (fun x => spec_out (pm_of (t_pm t)) (up_of (t_up t)) d ts cs (spec_esreq opts x)) reqs outs
   end.
 
 Definition pair_eqb (a b : string * string) : bool :=
@@ -179,14 +218,14 @@ Definition path1 (q : esreq) (x : eout) : nat :=
   | _ => 20
   end.
 
-Fixpoint path_list (reqs : list ereq) (outs : list eout) : nat :=
+Fixpoint path_list (opts : list popt) (reqs : list ereq) (outs : list eout) : nat :=
   match reqs, outs with
-  | x :: reqs', o :: outs' => path1 (to_esreq x) o + path_list reqs' outs'
+  | x :: reqs', o :: outs' => path1 (spec_esreq opts x) o + path_list opts reqs' outs'
   | _, _ => 0
   end.
 
 Definition path (i : input) (o : observed) : nat :=
-  match i, o with IEnd _ _ _ _ reqs, OEnd outs => path_list reqs outs end.
+  match i, o with IEnd _ _ opts _ _ reqs, OEnd outs => path_list opts reqs outs end.
 
 Definition case_mismatches := run_mismatches model obs_eqb.
 Definition case_violations := run_violations spec.
